@@ -26,6 +26,10 @@ def format_map_key_value_data_type_conditions(
                 val = i.callable.kwargs["value"]
             elif i.callable.name == "in_":
                 val = " or ".join(str(j) for j in i.callable.kwargs["value"])
+            else:
+                # other comparisons, e.g. `greater_than` or `in_range`:
+                cnd_args = [*i.callable.args, *i.callable.kwargs.values()]
+                val = f"{i.callable.name} " + ", ".join(str(j) for j in cnd_args)
             out_i += f"length: {val}"
 
         elif i.callable.name == "equal_to":
